@@ -3,6 +3,7 @@ package main
 import (
 	"fmt"
 	"os"
+	"strings"
 )
 
 func main() {
@@ -18,6 +19,17 @@ func main() {
 			os.Exit(2)
 		}
 		fmt.Println(mf)
+	case "ssa":
+		e, err := loadEngine("/repo", "/verif/build/p_ssa", []string{"./..."})
+		if err != nil {
+			fmt.Fprintln(os.Stderr, err)
+			os.Exit(2)
+		}
+		for k, f := range e.funcs {
+			if strings.Contains(k, os.Args[2]) {
+				f.WriteTo(os.Stdout)
+			}
+		}
 	case "check":
 		os.Exit(mainCheck(os.Args[2:]))
 	default:
